@@ -106,8 +106,8 @@ def bounds_ms(cfg):
 
 
 def setting_representable(cfg):
-    return (64 * cfg[0] + (64 * cfg[1] + 500) // 1000 < 65536 and
-            64 * cfg[2] + (64 * cfg[3] + 500) // 1000 < 65536)
+    """what the setters accept (uint16 integer part > 0, fraction < 1000): C06_timeout_range's hypothesis"""
+    return 0 < cfg[0] < 65536 and 0 <= cfg[1] < 1000 and 0 < cfg[2] < 65536 and 0 <= cfg[3] < 1000
 
 
 def readback_cfgs(line, out):
@@ -487,7 +487,6 @@ def main(run):
         "ocaml/d_sched.ml glue: event parsing, 'W' (sleep as long as the last prepare said)"]
     run.assumptions = [
         "timing is claimed at the resolution of the code's Q.6 fixed point (1/64 s per setting) and of one tick (1 ms)",
-        "settings representable in 16-bit Q.6 (integer part <= 1022; above: known finding K06-1)",
         "max_retransmit <= 255 in the theorems (8-bit retransmit_cnt); no wrap of the 64-bit tick counter",
         "only the send queue's timers enter the reported wait (no observe/async/block/DTLS/keep-alive timers); "
         "after an empty ACK to a request the library's own receive timer is compared one-sidedly",
@@ -652,9 +651,7 @@ def main(run):
                     sbad += 1
                     run.violation("initial timeout out of range: " + probs[0],
                                   "case: %s\nimpl : %s\nmodel: %s\n" % (ln, b, a), tag="calc%d" % sbad)
-        if a != b and (rep or not kf_wrap):
-            # (outside the representable settings the property already fails - K06-1 - and the
-            # theorems say nothing: only the oracle above looks at those rows)
+        if a != b:
             sbad += 1
             if sbad <= 3:
                 run.violation("coap_calc_timeout differs from the proved model (leaf sweep)",
